@@ -11,10 +11,13 @@ from harness.common.core import pct, rat
 from harness.gen import crystalio as gen_cio
 
 ID = "C10"
-LEAN_TARGETS = ["ChmpyVerif.Props.C10"]
+LEAN_TARGETS = ["ChmpyVerif.Props.C10", "ChmpyVerif.Props.C15Float"]
 T = "ChmpyVerif.Props.C10."
 THEOREMS = [T + n for n in ("save_load_dispatch", "shelx_keys_letters", "shelx_label_never_keyword", "shelx_atom_format", "shelx_coord_roundtrip",
                             "shelx_cell_precision", "poscar_row_format")]
+# the CIF route: an `_atom_site_*` row (label + fixed-point columns) is cut into exactly its fields and every number reads back as its
+# 12-decimal rounding (theorems shared with C15)
+THEOREMS += ["ChmpyVerif.Props.C15." + n for n in ("atom_site_row_tokens", "atom_site_row_tokens_alnum", "fixedCore_reads_back", "fixedCore_error")]
 TRUSTED = [
     "translator harness/gen/crystalio.py (dispatch maps, SHELX_LINE_KEYS, the atom-line format string, round(x,6) of _cell_string, the POSCAR row "
     "f-strings) -> Gen/CrystalIO.lean",
